@@ -23,7 +23,10 @@ import itertools  # noqa: E402
 
 B._counter = itertools.count(1_000_000 + next(B._counter))
 
-DOCUMENTED = {"ParserError", "ConverterError", "XmlContextError", "LEAK:XmlHandlerError"}
+# "one of the library's documented parsing, conversion or context errors" (property statement).  XmlHandlerError is
+# raised by the handlers for an event kind they do not know — a defect of the event source, not a verdict on a document —
+# so it is not among them (audit item 4).
+DOCUMENTED = {"ParserError", "ConverterError", "XmlContextError"}
 
 
 # =============================================================================== (i) tree level
@@ -126,6 +129,8 @@ def cmp_tree(mo, io, a):
     keys its metadata cache by (class, parent namespace) — then it is the first-build-wins cache
     of XmlContext (property C14) and not the parser that differs from the model.  The outcome
     class (value / which error) must agree in any case."""
+    if unsupported(mo) and a.get("_sup", False):
+        return False  # `unsupported` is only admissible outside the proved supported region
     if cmp_parse(mo, io, a):
         return True
     if ("ok" in mo) != ("ok" in io) or mo.get("err") != io.get("err"):
@@ -226,7 +231,7 @@ def cmp_doc(mo, io, a):
     with a documented error (binding the event prefix may already have failed with another
     documented error before the tokenizer reaches the syntax error, so only the class counts)."""
     if unsupported(mo):
-        return True
+        return not a.get("_sup", False)  # `unsupported` is only admissible outside the proved supported region
     if a["tok"] == "syntax":
         return "err" in io and io["err"] in DOCUMENTED
     return mo == io
@@ -252,6 +257,9 @@ def gen_doc_lxml(rng, tier):
                 t = None
             yield {"ctx": ctx if t is not None else F.EMPTY_CTX, "tok": {"tree": t} if t is not None else "syntax", "clazz": "Root",
                    "config": cfg, "hex": data.hex(), "desc": desc, "_uni": u.modname, "_kind": k}
+        # the two outcomes that only libxml2's recovery mode has (Tok.stopped, Tok.textDecodeError)
+        for k, data, tok in F.lxml_only_faults(rng, xml):
+            yield {"ctx": F.EMPTY_CTX, "tok": tok, "clazz": "Root", "config": cfg, "hex": data.hex(), "desc": desc, "_uni": u.modname, "_kind": k}
 
 
 def impl_doc_lxml(a):
@@ -262,9 +270,13 @@ def cmp_doc_lxml(mo, io, a):
     """well-formed input: libxml2 strict and libxml2 recovering deliver the same events, so the
     model's outcome exactly; otherwise anything but a leak (recovery may well produce an object)"""
     if unsupported(mo):
-        return True
+        return not a.get("_sup", False)  # `unsupported` is only admissible outside the proved supported region
     if a["tok"] == "syntax":
         return "ok" in io or io.get("err") in DOCUMENTED
+    if a["tok"] in ("stopped", "text_decode"):
+        # no result / undecodable character data: an error in any case (binding the event prefix may
+        # already have failed with another documented error), never an object
+        return io.get("err") in DOCUMENTED
     return mo == io
 
 
@@ -413,7 +425,7 @@ def impl_dict(a):
 
 def cmp_dict(mo, io, a):
     if unsupported(mo):
-        return True
+        return not a.get("_sup", False)  # `unsupported` is only admissible outside the proved supported region
     return mo == io
 
 
@@ -464,23 +476,70 @@ def impl_doc_xinclude(a):
 
 def cmp_doc_xinclude(mo, io, a):
     if unsupported(mo):
-        return True
+        return not a.get("_sup", False)  # `unsupported` is only admissible outside the proved supported region
     if not (isinstance(a["tok"], dict) and "tree" in a["tok"]):
         # a broken inclusion / part: any documented error (which one comes first is the tokenizer's business)
         return "err" in io and io["err"] in DOCUMENTED
     return mo == io
 
 
+# =============================================================================== supported region of the models
+REGION: dict = {}
+
+
+def with_region(op, gen):
+    """Ask the driver (op fault.supported) for every generated case whether it lies inside the supported region
+    of the model (`Fault/Supported.lean`: there the no-leak theorems speak about the library's errors only; outside,
+    the model may answer `unsupported` and the case is compared by correspondence alone), mark the case, and record
+    the share per op."""
+    import framework
+
+    def g(rng, tier):
+        cases = list(gen(rng, tier))
+        reqs, idx = [], []
+        for i, a in enumerate(cases):
+            tree = a.get("tree") if "tree" in a else (a["tok"].get("tree") if isinstance(a.get("tok"), dict) else None)
+            if tree is not None:
+                reqs.append({"op": "fault.supported", "args": {"ctx": a["ctx"], "tree": tree}})
+                idx.append(i)
+            elif "loaded" in a:
+                reqs.append({"op": "fault.supported", "args": {"ctx": a["ctx"], "loaded": a["loaded"], "fuel": a.get("fuel", 64), "tree": None}})
+                idx.append(i)
+        try:
+            outs = framework.Driver().run(reqs)
+        except Exception:  # noqa: BLE001  (driver not built: the run reports that elsewhere)
+            outs = [None] * len(reqs)
+        inside = 0
+        for i, o in zip(idx, outs):
+            if isinstance(o, dict) and "ok" in o:
+                cases[i]["_sup"] = bool(o["ok"])
+                inside += bool(o["ok"])
+        REGION[op] = (inside, len(idx), len(cases))
+        print(f"[region] {op}: {inside} of {len(idx)} generated inputs with a tree / loaded value are inside the supported region "
+              f"({len(cases) - len(idx)} cases have none: tokenizer or json.load failures)", flush=True)
+        yield from cases
+
+    return g
+
+
+def region_classify(inner):
+    def c(a, o):
+        tag = {True: "in/", False: "OUT/"}.get(a.get("_sup"), "")
+        return tag + inner(a, o)
+
+    return c
+
+
 CORRS = [
-    Corr("bind.parse_u", gen_tree_faults, impl_parse_capped, compare=cmp_tree, classify=classify_tree,
+    Corr("bind.parse_u", with_region("bind.parse_u", gen_tree_faults), impl_parse_capped, compare=cmp_tree, classify=region_classify(classify_tree),
          describe="NodeParser(EventsHandler) vs model (parseRootU: Element/Primitive/Standard/Wildcard/Skip/Wrapper/Union nodes) on valid documents and every tree-level fault kind"),
-    Corr("fault.document", gen_doc_native, impl_doc_native, compare=cmp_doc, classify=classify_outcome,
+    Corr("fault.document", with_region("fault.document", gen_doc_native), impl_doc_native, compare=cmp_doc, classify=region_classify(classify_outcome),
          describe="XmlParser(XmlEventHandler).from_bytes vs model(parseDocument) on byte-level faults; tokenizer outcome from libxml2 strict"),
-    Corr("fault.document.lxml", gen_doc_lxml, impl_doc_lxml, compare=cmp_doc_lxml, classify=classify_outcome,
+    Corr("fault.document.lxml", with_region("fault.document.lxml", gen_doc_lxml), impl_doc_lxml, compare=cmp_doc_lxml, classify=region_classify(classify_outcome),
          describe="XmlParser(LxmlEventHandler).from_bytes on byte-level faults: model outcome on well-formed input, no leak otherwise"),
-    Corr("fault.document.xinclude", gen_doc_xinclude, impl_doc_xinclude, compare=cmp_doc_xinclude, classify=classify_outcome,
+    Corr("fault.document.xinclude", with_region("fault.document.xinclude", gen_doc_xinclude), impl_doc_xinclude, compare=cmp_doc_xinclude, classify=region_classify(classify_outcome),
          describe="XmlParser(process_xinclude=True) with both handlers: inclusion is transparent (model outcome on the expanded tree), broken inclusions end in documented errors"),
-    Corr("dict.decode", gen_dict, impl_dict, compare=cmp_dict, classify=classify_outcome,
+    Corr("dict.decode", with_region("dict.decode", gen_dict), impl_dict, compare=cmp_dict, classify=region_classify(classify_outcome),
          describe="DictDecoder.decode / JsonParser.from_bytes outcome class vs model on value-level and byte-level JSON faults"),
 ]
 
@@ -640,26 +699,76 @@ def gen_oracle_union(rng, tier):
     yield from gen_union_exhaustive(rng, tier)
 
 
-def _own_score(obj):
-    """score_object re-stated: None -1; a model: per field str 1, other non-None 1.5; else str 1 / 1.5"""
-    import dataclasses
+def _expected_union(order, el, config):
+    """The value `union_picks_best_score` promises, computed from the class description alone (no parser,
+    no converter of the library): Item has y: Optional[str] element, n: Optional[int] element and the fixed
+    attribute k="fix" (init=False).  Returns (kind, value) with kind in {"item", "int", "str", "bool"} or None."""
+    attrs = {k: v for k, v in el["a"]}
+    xsi_type = "{http://www.w3.org/2001/XMLSchema-instance}type"
+    strict_unknown_props = config.get("fail_on_unknown_properties", True)
+    strict_unknown_attrs = config.get("fail_on_unknown_attributes", False)
 
-    def one(v):
-        return 1.0 if isinstance(v, str) else (0.0 if v is None else 1.5)
+    def as_int(t):
+        t = t.strip()
+        body = t[1:] if t[:1] in "+-" else t
+        return int(t) if body.isdigit() and body.isascii() else None
 
-    if obj is None:
-        return -1.0
-    if dataclasses.is_dataclass(obj):
-        return sum(one(getattr(obj, f.name)) for f in dataclasses.fields(obj))
-    return one(obj)
+    def item():
+        """(score, value) of the Item trial or None: every child must be a member, well typed, a leaf"""
+        if "k" in attrs and attrs["k"].strip() != "fix":
+            return "ruled-out"
+        if xsi_type in attrs:
+            return None  # "zz:T": the prefix is not declared, the trial's root start fails
+        if strict_unknown_attrs and any(k not in ("k",) for k in attrs):
+            return None
+        y = n = None
+        for c in el["c"]:
+            if c["q"] == "y":
+                y = c["t"] if c["t"] is not None else ""
+            elif c["q"] == "n":
+                if c["c"]:
+                    return None  # a child below a primitive member
+                n = as_int(c["t"] or "")
+                if n is None:
+                    return None  # strict trial: the member does not convert
+            elif strict_unknown_props:
+                return None
+        score = 1.0 + (1.0 if y is not None else 0.0) + (1.5 if n is not None else 0.0)  # k='fix' is a str
+        return score, ("item", y, n)
+
+    results = []
+    for cand in order:
+        if cand == "item":
+            r = item()
+            if r == "ruled-out":
+                continue
+            results.append(r)
+        else:
+            if attrs:
+                continue  # a primitive cannot carry attributes
+            t = el["t"]
+            if t is None:
+                results.append(None)
+            elif cand == "str":
+                results.append((1.0, ("str", t)))
+            elif cand == "int":
+                v = as_int(t)
+                results.append(None if v is None else (1.5, ("int", v)))
+            else:
+                v = {"true": True, "1": True, "false": False, "0": False}.get(t.strip())
+                results.append(None if v is None else (1.5, ("bool", v)))
+    best = None
+    for r in results:
+        if r is not None and (best is None or r[0] > best[0]):
+            best = r
+    return None if best is None else best[1]
 
 
 def check_union_choice(a):
-    """`union_picks_best_score` on the real code: the value bound to a union field is the FIRST of the
-    candidates' own results with maximal score (each candidate tried on its own by a fresh strict
-    parser / converter; candidates that the attributes rule out skipped); ParserError iff none."""
+    """`union_picks_best_score` on the real code, against an expectation computed from the class
+    description only: which candidates can bind the element's attributes and children at all (strictly
+    typed), their `score_object` score (fields bound: str 1.0, other 1.5), first best in `XmlVar.types` order."""
     from xsdata.exceptions import ParserError
-    from xsdata.formats.converter import converter
     from xsdata.formats.dataclass.context import XmlContext
     from xsdata.formats.dataclass.parsers.bases import NodeParser
     from xsdata.formats.dataclass.parsers.config import ParserConfig
@@ -668,34 +777,10 @@ def check_union_choice(a):
     u = uni_of(a)
     Root, Item = u.classes["Root"], u.classes["Item"]
     el = a["tree"]["c"][0]
-    # the candidates in the order of the exported metadata (`XmlVar.types`; the builder sorts them)
+    # the candidates in the order of the exported metadata (`XmlVar.types`; the builder sorts them: an input here)
     var = next(v for vs in XmlContext(models_package=u.modname).build(Root).elements.values() for v in vs)
-    perm = [{"cls": "Item"} if t is Item else t.__name__ for t in var.types]
-    attrs = {k: v for k, v in el["a"]}
-    strict = ParserConfig(**{**a.get("config", {}), "fail_on_converter_warnings": True})
-    results = []
-    for cand in perm:
-        res = None
-        if isinstance(cand, dict):
-            if "k" in attrs and attrs["k"].strip() != "fix":
-                continue  # fixed attribute mismatch rules the class out
-            try:
-                res = NodeParser(context=XmlContext(models_package=u.modname), config=strict, handler=EventsHandler).parse(B.tree_events(el), Item)
-            except Exception:  # noqa: BLE001
-                res = None
-        else:
-            if attrs:
-                continue  # a primitive cannot carry attributes
-            tp = {"int": int, "str": str, "bool": bool}[cand]
-            try:
-                res = None if el["t"] is None else converter.deserialize(el["t"], [tp])
-            except Exception:  # noqa: BLE001
-                res = None
-        results.append(res)
-    best, best_score = None, -1.0
-    for r in results:
-        if _own_score(r) > best_score:
-            best, best_score = r, _own_score(r)
+    order = ["item" if t is Item else t.__name__ for t in var.types]
+    exp = _expected_union(order, el, a.get("config", {}))
     try:
         with F.time_cap(F.CAP_S):
             got = NodeParser(context=XmlContext(models_package=u.modname), config=ParserConfig(**a.get("config", {})), handler=EventsHandler).parse(
@@ -703,13 +788,24 @@ def check_union_choice(a):
     except F.Hang:
         return "UnionNode did not return within %.0f s" % F.CAP_S
     except ParserError:
-        return None if best is None else f"union field rejected although candidate result {best!r} exists"
+        return None if exp is None else f"union field rejected although candidate {exp!r} binds"
     except Exception as e:  # noqa: BLE001
         return f"{type(e).__name__} escaped from a document with a union field"
-    if best is None:
-        return f"union field bound {got.m!r} although every candidate fails"
-    if type(got.m) is not type(best) or got.m != best:
-        return f"union field bound {got.m!r}, the first best-scoring candidate result is {best!r} (results {results!r})"
+    m = got.m
+    if isinstance(m, Item):
+        seen = ("item", m.y, m.n)
+    elif isinstance(m, bool):
+        seen = ("bool", m)
+    elif isinstance(m, int):
+        seen = ("int", m)
+    elif isinstance(m, str):
+        seen = ("str", m)
+    else:
+        seen = ("other", repr(m))
+    if exp is None:
+        return f"union field bound {m!r} although no candidate can bind the element"
+    if seen != exp:
+        return f"union field bound {seen!r}, the first best-scoring candidate is {exp!r}"
     return None
 
 
@@ -827,15 +923,19 @@ ASSUMPTIONS = [
     "a DerivedElement wrapper around an instance of the requested class counts as an instance (documented behaviour for xsi:type / derived JSON documents)",
 ]
 LEVEL_TEXT = (
-    "Lean theorems over every element tree, every class universe (arbitrary metadata), every parser config: the tree-level parser "
-    "(NodeParser + Element/Primitive/Standard/Wildcard/Skip/Wrapper/Union nodes + ParserUtils) ends in a value, ParserError, ConverterError or "
-    "XmlContextError, never in another exception type (no_leak_parse_union; the union-aware model is proved a conservative extension of the one "
-    "the other properties use, union_model_extends_parse, and UnionNode's choice is characterised: union_picks_best_score); the byte-level entry "
-    "point is proved leak-free for every tokenizer outcome of both handlers incl. the xinclude path (no_leak_document); the JSON/dict decoder "
-    "model is proved leak-free for every loaded value and every json.load outcome (no_leak_dict, no_leak_json). Tied to /repo by differential "
-    "checks on every tree-level fault kind (union-targeted faults and a bounded-exhaustive union section included), byte-level faults for both "
-    "handlers, xinclude splits of real documents, and value/byte-level JSON faults. One tokenizer-level behaviour (expat does not check the "
-    "version number) stays listed as a known finding."
+    "Lean theorems over every element tree, every class universe (arbitrary metadata), every parser config. Inside the SUPPORTED REGION "
+    "of the models — a decidable predicate on universe and document (Fault/Supported.lean: every field default is one parse_var follows, "
+    "no xsi:type naming a builtin datatype other than str/int/bool/QName; for JSON: no compound/wildcard/anyType/union-of-classes field, no "
+    "object spelled like a generic AnyElement, fuel >= 3*depth+1) — the models never answer `unsupported` (supported_region_xml, "
+    "supported_region_dict) and the outcome of NodeParser.parse (Element/Primitive/Standard/Wildcard/Skip/Wrapper/Union nodes), of the "
+    "byte-level entry point for every tokenizer outcome of both handlers incl. xinclude, and of DictDecoder.decode / JsonParser.parse is a value "
+    "or ParserError / ConverterError / XmlContextError and nothing else (no_leak_parse_supported, no_leak_document_supported, "
+    "no_leak_dict_supported; malformed_rejected: every tokenizer failure is ParserError). Outside the region the models say `unsupported` and the "
+    "check relies on the correspondence; the evidence records the share of generated inputs inside (quick tier: 99.7 % of the trees, 97.6 % of the "
+    "JSON values). UnionNode's choice is characterised (union_picks_best_score) and the union-aware model is a conservative extension of the one "
+    "the other properties use (union_model_extends_parse). Tied to /repo by differential checks on every tree-level fault kind (union-targeted and "
+    "a bounded-exhaustive union section), byte-level faults for both handlers (incl. the outcomes only libxml2's recovery mode has), xinclude "
+    "splits, and value/byte-level JSON faults. One tokenizer-level behaviour (expat does not check the version number) stays a known finding."
 )
 LEVEL_NOTE = (
     "Trusted: Lean kernel; expat/libxml2 (their outcome on a byte string is an input of the model); the sampling correspondence. Not covered: "
